@@ -543,7 +543,14 @@ static void classify(const char* logprefix, pid_t pid, int status, FILE* o) {
         if (t == 0) snprintf(path, sizeof path, "%s.%d", logprefix, (int)pid);
         else snprintf(path, sizeof path, "h-%d/stderr.txt", (int)pid);
         f = fopen(path, "r");
-        if (f) { n += fread(buf + n, 1, sizeof buf - 1 - n, f); buf[n] = 0; fclose(f); if (t == 0) unlink(path); }
+        if (f) {
+            /* stderr.txt may be long (tracing build: one line per call); a UBSan report is at its end */
+            if (t == 1 && fseek(f, 0, SEEK_END) == 0) {
+                long len = ftell(f), room = (long)(sizeof buf - 1 - n);
+                fseek(f, len > room ? len - room : 0, SEEK_SET);
+            }
+            n += fread(buf + n, 1, sizeof buf - 1 - n, f); buf[n] = 0; fclose(f); if (t == 0) unlink(path);
+        }
     }
     if (strstr(buf, "attempting double-free")) kind = "doubleFree";
     else if (strstr(buf, "heap-use-after-free")) kind = "useAfterFree";
